@@ -17,7 +17,7 @@ type c16 struct{}
 func (c16) ID() string    { return "C16" }
 func (c16) Level() string { return "fault_enumeration" }
 func (c16) Rule() string {
-	return "an env file shared by two services whose earlier files define the referenced variable differently (2 declaration orders x discard x 4 map rotations); three environment keys at once, each {valueless and defined by the project environment with its own value, valueless and undefined, given a value, absent} x {list, mapping} x {default load, normalisation skipped, explicit WithServicesEnvironmentResolved}; one key in every subset of the layers {project environment, env_file 1, 2, 3} x {no environment entry, with value, empty value, without value} x {list, mapping} spelling; two-key cross references (value ${K2} in env file j with K2 defined in exactly one of project environment / earlier file / earlier line / later file); every {present, absent} x {required, optional} state vector of the three env files; discard on/off; the same lattice for label_file 1..2 x labels; every case loaded through the real loader and compared with the layering reference. distinct = distinct (layer subset, outcome) pairs"
+	return "(thorough: four keys) an env file shared by two services whose earlier files define the referenced variable differently (2 declaration orders x discard x 4 map rotations); three environment keys at once, each {valueless and defined by the project environment with its own value, valueless and undefined, given a value, absent} x {list, mapping} x {default load, normalisation skipped, explicit WithServicesEnvironmentResolved}; one key in every subset of the layers {project environment, env_file 1, 2, 3} x {no environment entry, with value, empty value, without value} x {list, mapping} spelling; two-key cross references (value ${K2} in env file j with K2 defined in exactly one of project environment / earlier file / earlier line / later file); every {present, absent} x {required, optional} state vector of the three env files x 5 spellings of the flag (implied, boolean, quoted text, variable, variable default); discard on/off; the same lattice for label_file 1..2 x labels; every case loaded through the real loader and compared with the layering reference. distinct = distinct (layer subset, outcome) pairs"
 }
 func (c16) Assumptions() []string {
 	return []string{
@@ -37,9 +37,13 @@ func (c16) Run(c *core.Ctx) {
 	// ---- three keys at once, each {valueless and defined by the project environment, valueless and undefined, given a value, absent}
 	// resolved by the loader's normalisation (default), by the environment resolution alone (normalisation skipped),
 	// and by an explicit WithServicesEnvironmentResolved on a project loaded with both skipped
-	for code := 0; code < 64*3; code++ {
+	nkeys, ncodes := 3, 64
+	if !c.Quick() {
+		nkeys, ncodes = 4, 256
+	}
+	for code := 0; code < ncodes*3; code++ {
 		for spelling := 0; spelling < 2; spelling++ {
-			code, mode, spelling := code%64, code/64, spelling
+			code, mode, spelling := code%ncodes, code/ncodes, spelling
 			id := fmt.Sprintf("env3/%02d/sp%d/mode%d", code, spelling, mode)
 			c.Do(id, func() core.Outcome {
 				env := map[string]string{}
@@ -47,7 +51,7 @@ func (c16) Run(c *core.Ctx) {
 				sb.WriteString("services:\n  s:\n    image: i\n    environment:\n")
 				want := map[string]*string{}
 				x := code
-				for i := 1; i <= 3; i++ {
+				for i := 1; i <= nkeys; i++ {
 					k := fmt.Sprintf("K%d", i)
 					kind := x % 4
 					x /= 4
@@ -106,7 +110,7 @@ func (c16) Run(c *core.Ctx) {
 				}
 				got := p.Services["s"].Environment
 				cls := ""
-				for i := 1; i <= 3; i++ {
+				for i := 1; i <= nkeys; i++ {
 					k := fmt.Sprintf("K%d", i)
 					cls += k + "=" + ptrStr(got[k]) + ";"
 					if w := want[k]; w != nil && (got[k] == nil || *got[k] != *w) {
@@ -367,9 +371,24 @@ func (c16) Run(c *core.Ctx) {
 	}
 	// ---- file presence x required flag
 	for state := 0; state < 27; state++ { // per file: 0 present, 1 absent+required, 2 absent+optional
-		for spell := 0; spell < 2; spell++ { // how a required file is written: short string / long form
+		// how the flag is written: short string (required) / YAML boolean / quoted text / variable / variable default
+		for spell := 0; spell < 5; spell++ {
 			state, spell := state, spell
 			id := fmt.Sprintf("presence/%d/%d", state, spell)
+			flag := func(v bool) string {
+				switch spell {
+				case 2:
+					return fmt.Sprintf("\"%v\"", v)
+				case 3:
+					if v {
+						return "\"${REQ_T}\""
+					}
+					return "\"${REQ_F}\""
+				case 4:
+					return fmt.Sprintf("\"${UNSET_FLAG:-%v}\"", v)
+				}
+				return fmt.Sprint(v)
+			}
 			c.Do(id, func() core.Outcome {
 				files := map[string]string{}
 				var sb strings.Builder
@@ -386,21 +405,21 @@ func (c16) Run(c *core.Ctx) {
 						if spell == 0 {
 							fmt.Fprintf(&sb, "      - ./%s\n", name)
 						} else {
-							fmt.Fprintf(&sb, "      - {path: ./%s, required: true}\n", name)
+							fmt.Fprintf(&sb, "      - {path: ./%s, required: %s}\n", name, flag(true))
 						}
 					case 1:
 						missingRequired = append(missingRequired, name)
 						if spell == 0 {
 							fmt.Fprintf(&sb, "      - ./%s\n", name)
 						} else {
-							fmt.Fprintf(&sb, "      - {path: ./%s, required: true}\n", name)
+							fmt.Fprintf(&sb, "      - {path: ./%s, required: %s}\n", name, flag(true))
 						}
 					case 2:
-						fmt.Fprintf(&sb, "      - {path: ./%s, required: false}\n", name)
+						fmt.Fprintf(&sb, "      - {path: ./%s, required: %s}\n", name, flag(false))
 					}
 				}
 				files["compose.yaml"] = sb.String()
-				s := &Scn{Files: files, Main: []string{"compose.yaml"}}
+				s := &Scn{Files: files, Main: []string{"compose.yaml"}, Env: map[string]string{"REQ_T": "true", "REQ_F": "false"}}
 				root := s.Materialise()
 				p, err := s.LoadAt(root)
 				sample := map[string]any{"case": id, "files": files}
